@@ -657,13 +657,24 @@ func castArr(opts *options, v value) ([]value, Error) {
 		return sub.c.fields.array(), nil
 	}
 	if ref, ok := v.(*cfgDynamic); ok {
-		unrefed, err := ref.getValue(opts)
+		// withValue: references entered while resolving ref are active only
+		// until it has been resolved
+		var arr []value
+		var arrErr Error
+		var err error
+		isArr := false
+		ref.withValue(&err, opts, func(unrefed value) {
+			switch unrefed.(type) {
+			case cfgSub, *cfgDynamic: // a list, or a reference to follow further
+				isArr = true
+				arr, arrErr = castArr(opts, unrefed)
+			}
+		})
 		if err != nil {
 			return nil, raiseMissingMsg(ref.ctx.getParent(), ref.ctx.field, err.Error())
 		}
-
-		if sub, ok := unrefed.(cfgSub); ok {
-			return sub.c.fields.array(), nil
+		if isArr {
+			return arr, arrErr
 		}
 	}
 
@@ -817,7 +828,7 @@ func reifyDuration(
 	// number does: look at the value the reference resolves to
 	resolved := val
 	if dyn, ok := val.(*cfgDynamic); ok {
-		resolved, err = dyn.getValue(opts.opts)
+		dyn.withValue(&err, opts.opts, func(v value) { resolved = v })
 		if err != nil {
 			return reflect.Value{}, raiseInvalidDuration(val, err)
 		}
